@@ -448,6 +448,73 @@ fn run2d<T: Fl>(job: &Job, out: &mut JobOut) {
     }
 }
 
+/// A query that makes the call panic (NaN with extrapolation; a wrongly shaped buffer) is caught by
+/// the caller, who goes on using the interpolator: every finite query must still be answered, with the
+/// same bits as before.
+fn after_a_caught_panic(out: &mut JobOut) {
+    use ndarray::{Array1, Array2};
+    use ndarray_interp::interp1d::cubic_spline::CubicSpline;
+    use ndarray_interp::interp1d::{Interp1DBuilder, Linear};
+    use ndarray_interp::interp2d::{Bilinear, Interp2DBuilder};
+    let x = Array1::from(vec![-2.0, -1.25, 0.5, 1.0, 3.5]);
+    let d = Array2::from_shape_fn((5, 2), |(i, j)| ((i * 3 + j * 5) as f64 * 0.37).sin() + 0.25 * i as f64);
+    let qs = [-9.0, -2.0, -1.3, 0.0, 3.5, 3.6, 40.0];
+    macro_rules! one_d {
+        ($name:expr, $ip:expr) => {{
+            let ip = $ip;
+            out.states += 1;
+            macro_rules! obs {
+                () => {
+                    qs.iter().map(|&q| format!("{:?}", catch(|| ip.interp(q)).map(|r| r.map(|a| a.iter().map(|v| v.to_bits()).collect::<Vec<_>>()).map_err(|e| e.to_string())))).collect::<Vec<String>>()
+                };
+            }
+            let before = obs!();
+            let p1 = catch(|| ip.interp(f64::NAN)).is_err();
+            let mut small = Array1::<f64>::zeros(1);
+            let p2 = catch(|| ip.interp_into(0.0, small.view_mut())).is_err();
+            let p3 = catch(|| ip.interp_array(&Array1::from(vec![0.0, f64::NAN, 1.0]))).is_err();
+            let after = obs!();
+            out.evals += qs.len() as u64;
+            out.nontrivial += qs.len() as u64;
+            out.transitions += 3;
+            out.outcome(format!("after-panic:{}:{}", p1 || p2 || p3, before == after));
+            if before != after || before.iter().any(|b| !b.starts_with("Ok(Ok")) {
+                let k = before.iter().zip(&after).position(|(a, b)| a != b || !a.starts_with("Ok(Ok")).unwrap_or(0);
+                out.violate(
+                    format!("after-panic:{}", $name).replace(' ', ""),
+                    format!("{}: after a caught panic (NaN query: {p1}, short buffer: {p2}, NaN in a batch: {p3}) q = {} is answered with {}, before with {}", $name, qs[k], after[k], before[k]),
+                    Json::str($name),
+                );
+            }
+        }};
+    }
+    one_d!("Linear+extrapolate", Interp1DBuilder::new(d.clone()).x(x.clone()).strategy(Linear::new().extrapolate(true)).build().unwrap());
+    one_d!("CubicSpline+extrapolate", Interp1DBuilder::new(d.clone()).x(x.clone()).strategy(CubicSpline::new().extrapolate(true)).build().unwrap());
+    {
+        let y = Array1::from(vec![0.0, 1.0, 4.0]);
+        let z = Array2::from_shape_fn((5, 3), |(i, j)| (i * 3 + j) as f64 * 0.375 - 2.0);
+        let ip = Interp2DBuilder::new(z).x(x.clone()).y(y).strategy(Bilinear::new().extrapolate(true)).build().unwrap();
+        out.states += 1;
+        macro_rules! obs {
+            () => {
+                qs.iter().map(|&q| format!("{:?}", catch(|| ip.interp_scalar(q, q * 0.5)).map(|r| r.map(|v| v.to_bits()).map_err(|e| e.to_string())))).collect::<Vec<String>>()
+            };
+        }
+        let before = obs!();
+        let p1 = catch(|| ip.interp_scalar(f64::NAN, 1.0)).is_err();
+        let p2 = catch(|| ip.interp_scalar(1.0, f64::NAN)).is_err();
+        let mut big = Array1::<f64>::zeros(3);
+        let p3 = catch(|| ip.interp_array_into(&Array1::from(vec![0.0, 1.0]), &Array1::from(vec![0.0, 1.0]), big.view_mut())).is_err();
+        let after = obs!();
+        out.evals += qs.len() as u64;
+        out.nontrivial += qs.len() as u64;
+        if before != after || before.iter().any(|b| !b.starts_with("Ok(Ok")) {
+            let k = before.iter().zip(&after).position(|(a, b)| a != b || !a.starts_with("Ok(Ok")).unwrap_or(0);
+            out.violate("after-panic:Bilinear+extrapolate".to_string(), format!("Bilinear+extrapolate: after a caught panic (NaN x: {p1}, NaN y: {p2}, long buffer: {p3}) q = {} is answered with {}, before with {}", qs[k], after[k], before[k]), Json::Null);
+        }
+    }
+}
+
 fn body(ctx: &Ctx) -> (Summary, Meta) {
     let quick = ctx.quick();
     let mut jobs = vec![];
@@ -508,7 +575,7 @@ fn body(ctx: &Ctx) -> (Summary, Meta) {
         }
     }
     let njobs = jobs.len();
-    let sum = run_jobs(ctx, "extrapolation", &jobs, |j| j.key(), |j| {
+    let mut sum = run_jobs(ctx, "extrapolation", &jobs, |j| j.key(), |j| {
         let mut out = JobOut::default();
         match (&j.kind, j.f32) {
             (Kind::Bilinear(_), false) => run2d::<f64>(j, &mut out),
@@ -518,8 +585,15 @@ fn body(ctx: &Ctx) -> (Summary, Meta) {
         }
         out
     });
+    sum.merge(run_jobs(ctx, "builder-option-histories", &[()], |_| "builder-option-histories".to_string(), |_| {
+        let mut out = JobOut::default();
+        nimc::subj::check_spline_option_histories(4, &|_b, e| e, &mut out);
+        after_a_caught_panic(&mut out);
+        out.sample = Some(Json::str("[Boundary(3), Extrapolate(true), Boundary(1)] vs [Extrapolate(true), Boundary(1)]"));
+        out
+    }));
     let meta = Meta {
-        rule: "for every (axis, strategy) pair build the extrapolating interpolator and its non-extrapolating twin: (i) every finite outside query {1,2 ulp, 2^-10 P, P/4, P, 3P, 100P on both sides, +-MAX} is answered through 6 call forms incl. 2-d and dynamic query arrays and *_into; (ii) in-range results are bit-identical to the twin; (iii) outside values equal the exact continuation of the end chord / the certified exact end cubic / the border cell's bilinear form (2-D: outside in x, in y, in both). Non-trivial = an outside query compared with the exact continuation.".into(),
+        rule: "for every (axis, strategy) pair build the extrapolating interpolator and its non-extrapolating twin: (i) every finite outside query {1,2 ulp, 2^-10 P, P/4, P, 3P, 100P on both sides, +-MAX} is answered through 6 call forms incl. 2-d and dynamic query arrays and *_into; (ii) in-range results are bit-identical to the twin; (iii) outside values equal the exact continuation of the end chord / the certified exact end cubic / the border cell's bilinear form (2-D: outside in x, in y, in both). Non-trivial = an outside query compared with the exact continuation. After a caught panic (NaN query, NaN inside a batch, wrongly shaped buffer) every extrapolating interpolator still answers every finite query with the same bits. Phase builder-option-histories: every sequence of up to 4 CubicSpline option calls over {boundary(NotAKnot), boundary(Natural), boundary(Periodic), extrapolate(true), extrapolate(false)} that denotes an extrapolating configuration answers 18 queries (in range, just outside, far outside) bit-identically to the canonical two-call history of that configuration.".into(),
         bounds: format!("{njobs} (type, axis/grid, strategy) jobs; Linear on value-set subsets + words + long words; CubicSpline on word axes n<=7 x 32 non-periodic boundary configurations; Bilinear on all ordered pairs of the 2-D axis set; tier {}", ctx.tier.name()),
         assumptions: vec!["tolerances: Linear 8 eps max(|y1|,|y2|,|t||y2-y1|); spline 16 K eps scale max(1,|t|)^3 (see C16); bilinear 24 eps max|z| (1+|tx|)(1+|ty|)".into()],
         extra: vec![],
